@@ -40,3 +40,14 @@ Corollary gen_never_crashes cfg acts :
   fst (gen_execute_actions cfg (S (forest_size acts)) acts) <> Crash /\
   fst (gen_execute_actions cfg (S (forest_size acts)) acts) <> OutOfFuel.
 Proof. intros. rewrite gen_commit. apply commit_safe. assumption. Qed.
+
+(* several commits on one object: the generated function takes nothing but the pending actions (it creates its
+   resolver state and generator afresh), so every commit of a history is the commit of its own actions *)
+Theorem gen_history_independent cfg rounds :
+  map (fun acts => gen_execute_actions cfg (S (forest_size acts)) acts) rounds = commit_history cfg rounds.
+Proof. unfold commit_history. apply map_ext. intros acts. apply gen_commit. Qed.
+
+Corollary gen_history_round cfg rounds k acts :
+  nth_error rounds k = Some acts ->
+  nth_error (commit_history cfg rounds) k = Some (gen_execute_actions cfg (S (forest_size acts)) acts).
+Proof. intros H. unfold commit_history. rewrite (map_nth_error _ _ _ H), gen_commit. reflexivity. Qed.
